@@ -213,7 +213,7 @@ def run(task: dict) -> dict:
             if st.peek() is not None:
                 fails.append(("not-consumed", f"stopped at token {st.pos} of {len(toks)}"))
             names = [n for _k, n in toks]
-            if leaves(t) != names:
+            if leaves(t) != names[: len(leaves(t))] or (st.peek() is None and leaves(t) != names):
                 fails.append(("leaves", f"in-order leaves {leaves(t)} differ from the stream"))
             bad = validity(
                 t,
